@@ -1,6 +1,9 @@
 import B2Z.Props.C01
 import B2Z.Proofs.Checks
+import B2Z.Model.Split
+import B2Z.Props.C13
 import B2Z.Proofs.ChecksOrder
+import B2Z.Proofs.Split
 /-! # C03 — output is invariant under how the work is decomposed, scheduled or split
 
 Corollaries of the pipeline refinement theorem (`Props/C01.lean`): the specification side does not
@@ -68,3 +71,34 @@ theorem C03_file_order_invariant (ps ps' : List Part) (h : ps.Perm ps') (hk : Di
   exact heq a ((sortParts_perm' ps).mem_iff.1 ha) b ((sortParts_perm' ps).mem_iff.1 hb) hk'.1 hk'.2
 
 end B2Z.Checks
+
+namespace B2Z.Split
+open B2Z.Checks
+
+/-- the meta data of the sorted pieces is the sorted meta data -/
+theorem explodeOrder_meta (pieces : List (List Rec)) :
+    (explodeOrder pieces).map metaOf = sortParts (pieces.map metaOf) :=
+  explodeOrder_meta' pieces
+
+/-- **C03 (split input)**: cut the record list of a file into consecutive non-empty pieces (`cut`,
+    `cut.flatten` = the unsplit file's records in output order) such that the set is accepted (no two
+    pieces overlap) and the pieces are in key order; hand the pieces to explode as separate files in
+    ANY order (`pieces` is a permutation of `cut`): the store holds exactly the unsplit record list -/
+theorem C03_split_files_any_order (cut pieces : List (List Rec)) (hperm : pieces.Perm cut)
+    (hne : ∀ p ∈ cut, p ≠ [])
+    (hord : sortParts (cut.map metaOf) = cut.map metaOf)
+    (hacc : accepts (cut.map metaOf) = true)
+    (hwf : WellFormed (cut.map metaOf)) :
+    storeRecords pieces = cut.flatten := by
+  have _ := hne
+  have hsep : (cut.map metaOf).Pairwise B2Z.Checks.Sep := by
+    have h := C13_accept_sound (cut.map metaOf) hwf hacc
+    rw [hord] at h
+    exact h
+  unfold storeRecords
+  rw [explodeOrder_eq_of_perm cut pieces hperm hord hsep hwf]
+
+example : storeRecords [[⟨1, 5, 0⟩], [⟨0, 9, 1⟩, ⟨0, 12, 2⟩], [⟨0, 1, 3⟩, ⟨0, 3, 4⟩]] =
+    [⟨0, 1, 3⟩, ⟨0, 3, 4⟩, ⟨0, 9, 1⟩, ⟨0, 12, 2⟩, ⟨1, 5, 0⟩] := by decide
+
+end B2Z.Split
